@@ -465,7 +465,7 @@ RUNNERS = {'call': run_call, 'member': run_member, 'history': run_history}
 # ----------------------------------------------------------------------------- workload
 def run(ctx):
     rng = ctx.rng
-    reps = 8 if ctx.tier == 'quick' else 80
+    reps = 8 if ctx.tier == 'quick' else 320
     i = 0
     for ei, e in enumerate(ENTRIES):
         for form in ('array', 'list'):
